@@ -162,6 +162,12 @@ def main(argv):
                             if not p0.blockprops[l_["block"]].get("Sigma"):
                                 p0.blockprops[l_["block"]]["Sigma"] = 10.0
             a, b = rng.choice([2.0, -1.5, 0.25]), rng.choice([1.0, 3.0, -0.5])
+            if kind == "h":
+                # an ambient temperature of the convection condition in S1 and none in S2, combined with a NEGATIVE weight: the combined
+                # excitation has a negative ambient temperature (an excitation value like any other for a linear solver), and the convection
+                # condition is carried by a line of the outer box
+                gen.use_all_bdry(p0, (1, 2))
+                e1["c1"], e2["c1"], a = 300.0, 0.0, -1.5
             e3 = combine(e1, e2, a, b)
             ez = combine(e1, e2, 0.0, 0.0)
             runs = {}
